@@ -77,6 +77,27 @@ Proof.
   apply Forall_forall. auto.
 Qed.
 
+(* -m: every file holds a document of its field; -y: the stream is ---/document pairs closed by
+   the end marker, and every document decodes to its array item *)
+Theorem C05_cli_multi_roundtrip :
+  forall (show : f64 -> str) (read : str -> option f64),
+  (forall x, num_ok x -> read (show x) = Some x) ->
+  (forall x, num_ok x -> is_json_number (show x) = true) ->
+  forall ms, finite_nums (JObj ms) ->
+  exists files, cli_multi show (JObj ms) = Some files
+  /\ Forall2 (fun kv f => fst f = fst kv /\ decode read (snd f) = Ok (snd kv)) ms files.
+Proof. intros show read H1 H2. exact (cli_multi_roundtrip num_ok show read H1 H2). Qed.
+
+Theorem C05_cli_yaml_stream_roundtrip :
+  forall (show : f64 -> str) (read : str -> option f64),
+  (forall x, num_ok x -> read (show x) = Some x) ->
+  (forall x, num_ok x -> is_json_number (show x) = true) ->
+  forall items, finite_nums (JArr items) -> items <> [] ->
+  exists docs, cli_yaml_stream show (JArr items)
+               = Some (flat_map (fun doc => [45; 45; 45; 10] ++ doc) docs ++ [46; 46; 46; 10])
+  /\ Forall2 (fun it doc => decode read doc = Ok it) items docs.
+Proof. intros show read H1 H2. exact (cli_yaml_stream_roundtrip num_ok show read H1 H2). Qed.
+
 (* every whitespace format erases to the minified text *)
 Theorem C05_ws_erasure :
   forall (show : f64 -> str) (fmt : json_format) (v : jvalue) (d d' : nat),
@@ -99,6 +120,10 @@ Proof. exact toml_basic_string_ok. Qed.
 
 Theorem C05_python_string_ok : forall s, quoted python_chars (escape_string_python s).
 Proof. exact python_string_ok. Qed.
+
+(* ... and a one-line YAML 1.2 double-quoted scalar (strings not ending in a newline, quoted keys) *)
+Theorem C05_yaml_double_quoted_ok : forall s, quoted yaml_dq_chars (escape_string_json s).
+Proof. exact yaml_double_quoted_ok. Qed.
 
 Theorem C05_safe_toml_plain_sound : forall s, is_safe_toml_plain s = true -> toml_bare_key s.
 Proof. exact safe_toml_plain_sound. Qed.
@@ -174,10 +199,13 @@ Print Assumptions C05_manifest_parse_roundtrip.
 Print Assumptions C05_manifest_parse_roundtrip_finite.
 Print Assumptions C05_manifest_injective.
 Print Assumptions C05_cli_default_roundtrip.
+Print Assumptions C05_cli_multi_roundtrip.
+Print Assumptions C05_cli_yaml_stream_roundtrip.
 Print Assumptions C05_ws_erasure.
 Print Assumptions C05_builtin_formats_ws.
 Print Assumptions C05_toml_basic_string_ok.
 Print Assumptions C05_python_string_ok.
+Print Assumptions C05_yaml_double_quoted_ok.
 Print Assumptions C05_safe_toml_plain_sound.
 Print Assumptions C05_escape_key_toml_ok.
 Print Assumptions C05_safe_yaml_plain_chars.
